@@ -35,7 +35,7 @@ func init() {
 			return fw.Plan{Batches: 8, Parallel: 8, Timeout: 8 * time.Minute}
 		},
 		Floors: func(tier string) map[string]int64 {
-			return map[string]int64{"batches": 2000, "slots_checked": 2000, "relocation_failed_in_later_round": 10, "retry_rounds_observed": 300,
+			return map[string]int64{"batches": 2000, "enumerated_single_fault_placements": 400, "slots_checked": 2000, "relocation_failed_in_later_round": 10, "retry_rounds_observed": 300,
 				"cancel_before": 15, "cancel_waiting": 15, "cancel_backoff": 15, "slots_success_payload_checked": 1000, "slots_own_error_checked": 200}
 		},
 		Run: runC07,
@@ -43,6 +43,20 @@ func init() {
 }
 
 func runC07(c *fw.Ctx) {
+	// all single-fault placements for batches of up to 4 calls
+	for i, b := range enumBatchCases() {
+		if i%c.NBatches != c.Batch {
+			continue
+		}
+		id := fmt.Sprintf("e%d", i)
+		if i%50 == 0 {
+			c.Begin(id, b)
+		}
+		c.Eval("enum|"+b.matrix(), true)
+		c.Count("batches", 1)
+		c.Count("enumerated_single_fault_placements", 1)
+		judgeC07(c, id, runBatchCase(b, id))
+	}
 	r := c.Rand("c07")
 	n := c.Pick(2400, 24000) / c.NBatches
 	for i := 0; i < n; i++ {
